@@ -63,6 +63,9 @@ def check(ck: Checker) -> None:
     from . import round8 as _r8
 
     _r8.fs_hash_by_requested_name(ck, "C13.algo")
+    from . import round10 as _r10
+
+    _r10.batch_lookup_yields_current(ck, "C13.batch")
     _r7.state_hit_full_meta(ck, "C13.hit")
 
 
